@@ -176,6 +176,9 @@ func DumpSSA(pkg, name string) int {
 		fmt.Fprintln(os.Stderr, "gsa:", err)
 		return 3
 	}
+	for _, l := range p.CanonLog {
+		fmt.Println("renamed back:", l)
+	}
 	for _, l := range p.InlineLog {
 		fmt.Println("inlined:", l)
 	}
@@ -187,6 +190,27 @@ func DumpSSA(pkg, name string) int {
 	fn.WriteTo(os.Stdout)
 	for _, af := range fn.AnonFuncs {
 		af.WriteTo(os.Stdout)
+	}
+	return 0
+}
+
+// Idents prints the identifier table of the tree (input for core/idents.txt):
+// the default configuration in declaration order, then what only other
+// configurations declare.
+func Idents() int {
+	seen := map[string]bool{}
+	for _, bc := range [][2]string{{"", ""}, {"linux", "386"}, {"windows", "amd64"}, {"darwin", "arm64"}, {"freebsd", "amd64"}, {"openbsd", "amd64"}} {
+		p, err := core.Load(core.LoadOpts{GOOS: bc[0], GOARCH: bc[1], NoInline: true})
+		if err != nil {
+			fmt.Fprintln(os.Stderr, "gsa:", err)
+			return 3
+		}
+		for _, l := range core.IdentTable(p.Pkgs) {
+			if !seen[l] {
+				seen[l] = true
+				fmt.Println(l)
+			}
+		}
 	}
 	return 0
 }
